@@ -28,6 +28,10 @@ PROPS = {
                 floors=dict(FAMS, **{"mode:load": 0.1, "budget<workers": 0.08, "budget<=loaded": 0.05, "tolerance-reached-early": 0.03, "latency:skewed": 0.5}),
                 assumptions=["ThreadSanitizer reports every data race between the executed threads (happens-before analysis)",
                              "worker schedules are perturbed by generated model latencies, not enumerated: a deadlock or lost wake-up that needs one specific interleaving can be missed"]),
+    "C13": grid_prop(280, 20000, size=120, quick=dict(cases=280, size=120, wall=900, shards=8, case_budget=60), extra_flavours=["serial", "omp"], runner_env={"VERIF_C13_SERIAL": ("serial", "c13runner"), "VERIF_C13_OMP": ("omp", "c13runner")},
+                     floors={"points>=1000": 0.3}, 
+                     assumptions=["no dynamic race detector understands libgomp here (ThreadSanitizer reports false races): only schedule-dependent OUTCOMES across thread counts are observed",
+                                  "refinement tolerances come from a fixed palette, so a rounding difference in a reduction flipping a decision is improbable but not excluded; floats are compared to 1e-10 relative"]),
     "C06": grid_prop(40000, 1500000,
                      floors={"fam:global": 0.08, "fam:sequence": 0.08, "fam:localp": 0.08, "fam:wavelet": 0.08, "fam:fourier": 0.08,
                              "fmt:ascii": 0.35, "sec:pending": 0.04, "sec:construction": 0.04, "sec:transform": 0.04, "sec:limits": 0.04}),
@@ -40,6 +44,11 @@ NOT_APPLICABLE = {}
 
 _TB = "Trusted base: the harness (decoder, reference models, oracles) and the sanitizer runtimes; generation is random, so absence of violations is evidence for the explored distribution only (reported in the evidence file)."
 META = {
+    "C13": dict(technique="property-based testing (rapidcheck, byte decoder) with a differential oracle between two builds of the library: a serial-build runner and an OpenMP-build runner executed under several OMP_NUM_THREADS",
+                text="Each generated history (load, surplus / anisotropic refinement, update, construction, merge, coefficient overwrite) is executed on larger grids by a runner linked against the serial build and by the same runner linked against the OpenMP build with "
+                     "OMP_NUM_THREADS = 1 and two values from {2,3,5,7,16,48}; point sets, orders, index sets, sparse patterns and candidate lists must be identical (hashes of the exact data), coefficients, evaluations, integrals and weights equal to 1e-10 relative. Exploration; "
+                     "only outcome differences are observable.",
+                note="Trusted base: the serial build as reference, the harness. Races whose effect is masked (e.g. by a final sort) or needs a rare interleaving are not found."),
     "C18": dict(technique="property-based testing (rapidcheck, structure-aware byte decoder) of the threaded addons under ThreadSanitizer, with a logged model callback (exactly-once, per-id overlap flag, budget count), generated latencies and a watchdog for termination",
                 text="Parallel constructSurrogate (tolerance and anisotropic overloads) and the threaded loadNeededValues (needed / overwrite, array and vector models) are run on generated grids with generated budgets (below, at and above the candidate pool, the worker count and the number of "
                      "already loaded points), 1-8 workers, batches 1-4 and per-call latency scripts. The model log must show no point evaluated twice, no two overlapping calls with one thread id and at most max_num_points samples; the call must return; every loaded point must carry "
